@@ -196,6 +196,27 @@ def pure_b(repo: Repo) -> List[Ob]:
                      obs.append(bad("PURE-b", ps, "per-operand-dimension", ("C03", "C10"), x, f"operand `{src(mc[0])}` is resized with `{src(a)}`: dimension index and operand index disagree")))
     if not found:
         raise AnalysisError("PURE-b: per-operand resize loop of ProductState.apply_operation not found")
+    # Operation.compute_dimensions itself: the dimensions are recomputed for every target; whether it recomputes may depend on the
+    # operation *type* only, never on what an earlier application left in the object (cached operator / dimensions)
+    from ..model import expand_src
+    ocd = repo.func("Operation.compute_dimensions")
+    ocfg = CFG(ocd.node)
+    sets = [nd for nd in ocfg.nodes if nd.kind == "stmt" and isinstance(nd.ast, ast.Assign) and any(src(t) in ("self._dimensions", "self.dimensions") for t in nd.ast.targets)
+            and any(method_call(x) and method_call(x)[1] == "compute_dimensions" for x in ast.walk(nd.ast.value))]
+    if not sets:
+        obs.append(bad("PURE-b", ocd, "recomputes-per-target", ("C15", "C10", "C11"), ocd.node, "Operation.compute_dimensions no longer stores the dimensions computed by the operation type"))
+    else:
+        stale = None
+        for i_ in [x for x in walk_no_nested(ocd.node) if isinstance(x, ast.If)]:
+            if any(any(y is nd.ast for b in i_.body + i_.orelse for y in ast.walk(b)) for nd in sets):
+                t = expand_src(ocd.node, i_.test)
+                for cached in ("self._operator", "self.operator", "self._dimensions", "self.dimensions"):
+                    if cached in t:
+                        stale = (i_, cached)
+        (obs.append(bad("PURE-b", ocd, "recomputes-per-target", ("C15", "C10", "C11"), stale[0],
+                        f"whether the dimensions are recomputed depends on `{stale[1]}`, i.e. on an earlier application of this Operation object: a reused operation keeps the cutoffs "
+                        "of its previous target (a beam splitter applied to a pair with more photons acts in a truncated space)")) if stale else
+         obs.append(ok("PURE-b", ocd, "recomputes-per-target", ("C15", "C10", "C11"), sets[0].ast, "dimensions are recomputed for every target; the guard depends on the operation type only")))
     # operator getter
     g = repo.func("Operation.operator")
     cfg = CFG(g.node)
